@@ -22,10 +22,12 @@ PARSE_INPUTS = [
     "a = x-\n  y\nb =\nEND\n",
     "a = \x01\nb = 2\n",
     "GROUP = g\n  a =\nEND_GROUP\nq = 'x'\nEND\n",
+    "GROUP = g\n  OBJECT = o\n    a = 1\n  END_OBJECT = wrong_name\nEND_GROUP\nEND\n",
+    "OBJECT = h\n  GROUP = k\n    a = 1\n",
 ]
 INPUT_CLASS = {1: "clean", 2: "missing-values", 3: "missing-values", 4: "fails-after-repair", 5: "fails-at-once",
-               6: "dash-continuation", 7: "disallowed-char", 8: "missing-in-block"}
-DECODE_INPUTS = ["1", "'abc'", "2001-01-01", "a b", "16#FF#", "12:00:60", "NULL", "1.5e3"]
+               6: "dash-continuation", 7: "disallowed-char", 8: "missing-in-block", 9: "fails-inside-block", 10: "truncated-inside-block"}
+DECODE_INPUTS = ["1", "'abc'", "2001-01-01", "a b", "16#FF#", "12:00:60", "NULL", "1.5e3", "23:59:60", "2001-366"]
 
 
 def encode_inputs():
@@ -40,7 +42,12 @@ def encode_inputs():
         PVLModule(f=float("inf")),
         PVLModule([("g", PVLGroup(x=1)), ("g", PVLGroup(x=2)), ("z", "x" * 100)]),
         PVLModule(k={1.5, "a b"}),
+        PVLModule(a="caf\u0101"),                  # a character no dialect's character set has
+        PVLModule([("b", "x\u0101y"), ("c", 2)]),
     ]
+
+
+NENC = 10
 
 
 def kinds():
@@ -71,14 +78,14 @@ def kinds():
         e = row["encoder"]
         ks["pvl_validate.dialects[%s].encoder" % name] = (
             (lambda e=e: type(e)(grammar=type(e.grammar)(), decoder=type(e.decoder)(type(e.grammar)()))),
-            (lambda e=e: e), enc_call, 8)
+            (lambda e=e: e), enc_call, NENC)
     for name, cls in (("PVLEncoder", E.PVLEncoder), ("ODLEncoder", E.ODLEncoder),
                       ("PDSLabelEncoder", E.PDSLabelEncoder), ("ISISEncoder", E.ISISEncoder)):
-        ks[name] = ((lambda cls=cls: cls()), None, enc_call, 8)
+        ks[name] = ((lambda cls=cls: cls()), None, enc_call, NENC)
     for name, w in T.formats.items():
         if hasattr(w, "encoder"):
             e = w.encoder
-            ks["pvl_translate.formats[%s].encoder" % name] = ((lambda e=e: type(e)()), (lambda e=e: e), enc_call, 8)
+            ks["pvl_translate.formats[%s].encoder" % name] = ((lambda e=e: type(e)()), (lambda e=e: e), enc_call, NENC)
     for name, mk in (("PVLDecoder", lambda: D.PVLDecoder()), ("ODLDecoder", lambda: D.ODLDecoder()),
                      ("PDSLabelDecoder", lambda: D.PDSLabelDecoder()), ("OmniDecoder", lambda: D.OmniDecoder())):
         ks[name] = (mk, None, dec_call, len(DECODE_INPUTS))
@@ -133,7 +140,7 @@ def run(ctx, rep):
     _G["kinds"] = kinds()
     _G["encode_inputs"] = encode_inputs
     D = 4 if ctx.thorough else 3
-    rep.rule = ("every call history of length %d over an 8-input pool (clean, missing values, failing part-way, "
+    rep.rule = ("every call history of length %d over a 10-input pool (clean, missing values, failing part-way, "
                 "failing at once, dash continuation, disallowed character, nested block ...) enumerated by TLC from "
                 "spec/Session.tla, issued to one long-lived instance of each of %d parser/encoder/decoder kinds "
                 "(classes and the CLI module-level instances) next to a fresh instance; judged by TLC with "
@@ -147,13 +154,13 @@ def run(ctx, rep):
             raise RuntimeError("Session model check %s: unexpected result %r" % (name, r.violation))
     p = os.path.join(ctx.scratch, "sess.cfg")
     with open(p, "w") as f:
-        f.write("SPECIFICATION Spec\nCONSTANT NInputs = 8\nCONSTANT D = %d\nCONSTANT Reset = TRUE\nCONSTANT Emit = TRUE\n"
+        f.write("SPECIFICATION Spec\nCONSTANT NInputs = 10\nCONSTANT D = %d\nCONSTANT Reset = TRUE\nCONSTANT Emit = TRUE\n"
                 "INVARIANT NoLeak\nINVARIANT EmitHist\nCHECK_DEADLOCK FALSE\n" % D)
     r = tlc.run("Session", p, workers=1, scratch=ctx.scratch)
-    rep.tlc("Session: all call histories of length %d over 8 inputs" % D, r)
+    rep.tlc("Session: all call histories of length %d over 10 inputs" % D, r)
     hists = [x["h"] for x in r.printed]
-    if len(hists) != 8 ** D:
-        raise RuntimeError("expected %d histories, got %d" % (8 ** D, len(hists)))
+    if len(hists) != 10 ** D:
+        raise RuntimeError("expected %d histories, got %d" % (10 ** D, len(hists)))
     rep.exhaustive["histories of length %d x %d instance kinds" % (D, len(_G["kinds"]))] = True
     # long-lived module-level instances are shared by all histories in one process: run those serially per kind,
     # in the order TLC emitted them, so that the instance really accumulates a long past
